@@ -70,13 +70,12 @@ Definition dedup_fields (props : list (str * bool)) : list (str * str) :=
   combine keys (assign cand_us2 [] (map method_name keys)).
 
 (* ---------- class names and module stems ---------- *)
-(* raw: the names given to IRSchema(name=...); IRSchema.__post_init__ replaces each by its
-   sanitize_class_name, and the emitter sanitises that stored name again.  A stored name always contains an
+(* raw: the names given to IRSchema(name=...); IRSchema.__post_init__ replaces each by Names.ir_name of it, and the emitter sanitises that stored name again.  A stored name always contains an
    ASCII letter or digit, so sanitize_module_name is on its token path (module_name_tok, no Unicode oracle).
    Output: (position in the input, (class name, module stem)) in the emitter's sorted order. *)
 Definition name_leb (a b : str * nat) : bool := str_leb (fst a) (fst b).
 Definition dedup_models (raw : list str) : list (nat * (str * str)) :=
-  let names := map class_name raw in
+  let names := map ir_name raw in
   let sorted := isort name_leb (combine names (seq 0 (length names))) in
   let ns := map fst sorted in
   combine (map snd sorted)
@@ -156,8 +155,8 @@ Definition guard_F04d (names : list str) (body : option str) : bool :=
 
 (* ---------- component schemas in the loader (core/loader/schemas/extractor.py build_schemas) ----------
    For each raw schema name n in document order: skipped when n or sanitize_class_name(n) is already a key of
-   context.parsed_schemas; otherwise parsed: IRSchema.__post_init__ sanitises the (already sanitised) name once
-   more, and the parser registers the schema under that name, or under the raw name when that key is taken
+   context.parsed_schemas; otherwise parsed: IRSchema.__post_init__ derives the stored name
+   from the (already sanitised) name (Names.ir_name), and the parser registers the schema under that name, or under the raw name when that key is taken
    (schema_parser.py "collision detected").  After the passes (below) every raw name must be found under n or its
    sanitised form, else RuntimeError (None).  Output: (registered key, position of the raw schema whose content it holds). *)
 Fixpoint build_keys_go (keys : list (str * nat)) (i : nat) (raw : list str) : list (str * nat) :=
@@ -167,7 +166,7 @@ Fixpoint build_keys_go (keys : list (str * nat)) (i : nat) (raw : list str) : li
       let ks := map fst keys in
       let c1 := class_name n in
       if mem_str n ks || mem_str c1 ks then build_keys_go keys (S i) r
-      else let c2 := class_name c1 in
+      else let c2 := ir_name c1 in
            build_keys_go (keys ++ [(if mem_str c2 ks then n else c2, i)]) (S i) r
   end.
 (* since F02d: up to len(raw_schemas) passes over the names that are still not found under n or its sanitised form
@@ -185,9 +184,12 @@ Definition build_keys (raw : list str) : option (list (str * nat)) :=
 
 (* guard F20k: sanitize_class_name is not idempotent on names with one-letter words ("a_b" -> "AB" -> "Ab") *)
 Definition guard_F20k (raw : list str) : bool :=
-  forallb (fun n => str_eqb (class_name (class_name n)) (class_name n)) raw.
-(* guard F20m: no two schema names collide after sanitisation *)
-Definition guard_F20m (raw : list str) : bool := nodupb (map class_name raw).
+  forallb (fun n => str_eqb (ir_name (class_name n)) (class_name n)) raw.
+(* guard F20m: no two schema names collide after sanitisation, and no raw name is the sanitised form of a
+   DIFFERENT schema (a raw name found among the sanitised names must be its own sanitised form) *)
+Definition guard_F20m (raw : list str) : bool :=
+  nodupb (map class_name raw)
+  && forallb (fun n => negb (mem_str n (map class_name raw)) || str_eqb n (class_name n)) raw.
 
 (* ---------- whole pipeline for component schemas that are all referenced by operations ----------
    spec -> build_schemas -> the operations' $ref resolution in document order (schema_parser.py: a $ref whose raw
@@ -200,7 +202,7 @@ Fixpoint refs_go (keys : list (str * nat)) (i : nat) (refs : list str) : list (s
   | r :: rest =>
       let ks := map fst keys in
       if mem_str r ks then refs_go keys (S i) rest
-      else let c2 := class_name (class_name r) in
+      else let c2 := ir_name (class_name r) in
            refs_go (keys ++ [(if mem_str c2 ks then r else c2, i)]) (S i) rest
   end.
 Definition pipeline_models (raw : list str) : option (list ((str * str) * nat)) :=
